@@ -411,10 +411,42 @@ func c05Free(c *Ctx, r *Rand, rounds int) {
 				mu.Unlock()
 				return out, nil
 			}}
-		if sharded {
-			f.Shard = func(arg interface{}) interface{} { return arg.(int) % 2 }
-		}
 		ctx := batch.WithBatching(context.Background())
+		// the shard function: plain; or one that looks the shard up through a second batch function on the same
+		// context; or one that panics for one malformed argument (that caller's problem only)
+		shardMode := 0
+		badArg := -1
+		if sharded {
+			shardMode = 1 + r.Intn(3)
+			switch shardMode {
+			case 1:
+				f.Shard = func(arg interface{}) interface{} { return arg.(int) % 2 }
+			case 2:
+				g := &batch.Func{WaitInterval: wait / 2, MaxDuration: time.Hour,
+					Many: func(ctx context.Context, args []interface{}) ([]interface{}, error) {
+						out := make([]interface{}, len(args))
+						for i, a := range args {
+							out[i] = a.(int) % 2
+						}
+						return out, nil
+					}}
+				f.Shard = func(arg interface{}) interface{} {
+					v, err := g.Invoke(ctx, arg)
+					if err != nil {
+						panic(err)
+					}
+					return v
+				}
+			case 3:
+				badArg = 100 + r.Intn(k)
+				f.Shard = func(arg interface{}) interface{} {
+					if arg.(int) == badArg {
+						panic("malformed argument")
+					}
+					return arg.(int) % 2
+				}
+			}
+		}
 		type res struct {
 			v     interface{}
 			err   error
@@ -445,7 +477,7 @@ func c05Free(c *Ctx, r *Rand, rounds int) {
 		}
 		done := make(chan struct{})
 		go func() { wg.Wait(); close(done) }()
-		cs := map[string]interface{}{"free_running": true, "callers": k, "max_size": maxSize, "sharded": sharded, "wait_us": int(wait / time.Microsecond), "delays_us": delays}
+		cs := map[string]interface{}{"free_running": true, "callers": k, "max_size": maxSize, "sharded": sharded, "shard_mode": shardMode, "bad_arg": badArg, "wait_us": int(wait / time.Microsecond), "delays_us": delays}
 		select {
 		case <-done:
 		case <-time.After(5 * time.Second):
@@ -468,6 +500,13 @@ func c05Free(c *Ctx, r *Rand, rounds int) {
 		}
 		mu.Unlock()
 		for i := 0; i < k && bad == ""; i++ {
+			if 100+i == badArg {
+				// the caller whose argument the shard function rejects: its own failure, and the argument is never fetched
+				if seen[badArg] != 0 {
+					bad = fmt.Sprintf("argument %d, which the shard function rejected, reached Many", badArg)
+				}
+				continue
+			}
 			switch {
 			case results[i].panic != nil:
 				bad = fmt.Sprintf("Invoke(%d) panicked: %v", 100+i, results[i].panic)
@@ -484,6 +523,7 @@ func c05Free(c *Ctx, r *Rand, rounds int) {
 			return
 		}
 		rep.Count("free_running_rounds")
+		rep.Count(fmt.Sprintf("free_running_shard_mode=%d", shardMode))
 	}
 }
 
